@@ -62,6 +62,17 @@ func wErrorOracle(r *wRun) {
 		}
 	}
 	r.rw.mu.Unlock()
+	// compression failure: the first Close of the script must report it
+	if cfs := r.cfaults(); len(cfs) > 0 {
+		for i, op := range r.in.Ops {
+			if op.K == "c" {
+				if i < len(r.results) && r.results[i] == "ok" {
+					bad = append(bad, wFail{"writer.close.nil.after-compress-failure", fmt.Sprintf("Close (op %d) returned nil although writeBlock must have refused block %d", i, cfs[0])})
+				}
+				break
+			}
+		}
+	}
 	r.fails = append(r.fails, bad...)
 }
 
@@ -122,6 +133,24 @@ func wGenFaultInput(rnd *Rand) wInput {
 		in.FaultAt = 0
 	}
 	in.Partial = rnd.coin(1, 2)
+	if !in.Bam && rnd.coin(1, 5) {
+		// compression failures instead of (or, rarely, together with) an I/O fault: a gzip header so large that
+		// blocks overflow 64 KiB (all of them, or only the bigger ones), or a header gzip refuses
+		switch rnd.intn(4) {
+		case 0:
+			in.ExtraLen = 65529
+		case 1:
+			in.ExtraLen = 65400
+		case 2:
+			in.ExtraLen = rnd.pick([]int{40000, 60000})
+		case 3:
+			in.BadName = true
+		}
+		if rnd.coin(5, 6) {
+			in.FaultAt = -1
+			in.Partial = false
+		}
+	}
 	return in
 }
 
@@ -129,7 +158,7 @@ const c09MaxHangs = 10
 
 func checkC09(c *ctx) {
 	res := c.res
-	res.Rule = "writer cases: the C12 script generator (bgzf scripts with Write/Flush/Wait/Close incl. calls after Close, and bam.NewWriter+records+Close) x wc 0..5 x GOMAXPROCS {1,2,16} x random delays, with a persistent fault from underlying Write #k on (k uniform over the run plus first/last/EOF-marker bias; error with or without partial data). reader cases: a valid BGZF file (1..6 members incl. empty and full-size members) read by a random history of Read/ReadByte/Seek/Close with rd in {1,2,4}, no cache, over a source that fails from Read #k, byte offset p (member start, header end at +18, last byte ... biased) or Seek #k on: kind err = every later Read fails (error, or error after partial data); kind eof = the file is truncated there (reads below the cut succeed, also after a Seek; reads at or beyond it report io.EOF). Non-trivial = the fault was actually reached by the run; distinct by the whole input. Oracle on the implementation: every call returns (watchdog + goroutine dump: dead-lock vs slowness), no goroutine with bgzf frames after Close, Close != nil after a failed write and every call != nil once the error was reported, no underlying write after a failed one, Flush+Wait == nil still implies durability; reader: bytes returned equal the flat data at their position, no clean end before the true end. Correspondence: writer traces must be paths of the Lean LTS of the repaired protocol (c12.trace with the fault oracle); reader outcomes vs the sequential fault model (c09.read)."
+	res.Rule = "writer cases: the C12 script generator (bgzf scripts with Write/Flush/Wait/Close incl. calls after Close, and bam.NewWriter+records+Close) x wc 0..5 x GOMAXPROCS {1,2,16} x random delays, with a persistent fault from underlying Write #k on (k uniform over the run plus first/last/EOF-marker bias; error with or without partial data), and in 1 case of 5 a compression failure instead (gzip Extra of 40000..65529 bytes so that some or all blocks overflow 64 KiB, or a Name gzip refuses; predicted per block with compress/gzip). reader cases: a valid BGZF file (1..6 members incl. empty and full-size members) read by a random history of Read/ReadByte/Seek/Close with rd in {1,2,4}, no cache, over a source that fails from Read #k, byte offset p (member start, header end at +18, last byte ... biased) or Seek #k on: kind err = every later Read fails (error, or error after partial data); kind eof = the file is truncated there (reads below the cut succeed, also after a Seek; reads at or beyond it report io.EOF). Non-trivial = the fault was actually reached by the run; distinct by the whole input. Oracle on the implementation: every call returns (watchdog + goroutine dump: dead-lock vs slowness), no goroutine with bgzf frames after Close, Close != nil after a failed write and every call != nil once the error was reported, no underlying write after a failed one, Flush+Wait == nil still implies durability; reader: bytes returned equal the flat data at their position, no clean end before the true end. Correspondence: writer traces must be paths of the Lean LTS of the repaired protocol (c12.trace with the fault oracle); reader outcomes vs the sequential fault model (c09.read)."
 	if runInChild(c, "C09") {
 		return
 	}
@@ -210,6 +239,18 @@ func checkC09(c *ctx) {
 			}
 		}
 		r.rw.mu.Unlock()
+		if in.ExtraLen > 0 || in.BadName {
+			cfs := r.cfaults()
+			if len(cfs) > 0 {
+				reached = true
+				res.hist("writer-compress-failure=some-block")
+				if len(cfs) == r.realChunks {
+					res.hist("writer-compress-failure=every-block")
+				}
+			} else {
+				res.hist("writer-compress-failure=none")
+			}
+		}
 		if reached {
 			res.hist("writer-fault=reached")
 			if in.Partial {
@@ -218,7 +259,7 @@ func checkC09(c *ctx) {
 		} else {
 			res.hist("writer-fault=not-reached")
 		}
-		res.eval(fmt.Sprintf("w|%d|%s|%d|%d|%v|%d|%v", in.WC, in.shape(), in.Procs, in.MaxDelayUs, in.Bam, in.FaultAt, in.Partial), reached)
+		res.eval(fmt.Sprintf("w|%d|%s|%d|%d|%v|%d|%v|%d|%v", in.WC, in.shape(), in.Procs, in.MaxDelayUs, in.Bam, in.FaultAt, in.Partial, in.ExtraLen, in.BadName), reached)
 		if i%40 == 0 {
 			ev, _, _, _ := r.trace()
 			res.sample(map[string]interface{}{"input": c09Input{Kind: "writer", Writer: &in}, "script": joinOr(r.script), "trace": joinOr(ev), "results": r.results})
